@@ -34,6 +34,6 @@ Definition verdict (id : N) (c : smcase) : list (list N) :=
     | (ty, text, oa, ob) :: l' =>
       let sa := found_eqb (find rx names ca ty text) oa in
       let sb := found_eqb (find rx names cb ty text) ob in
-      row id (10 * i + 1) (judge sa sa 0) :: row id (10 * i + 2) (judge sb sb 0) :: go (i + 1) l'
+      vrow id (10 * i + 1) (judge sa sa 0) :: vrow id (10 * i + 2) (judge sb sb 0) :: go (i + 1) l'
     end in
   go 1 (sm_steps c).
